@@ -329,7 +329,7 @@ PROPS['C15'] = dict(
 def _c06(tier, seed):
     jobs = []
     for be in BE:
-        jobs += J('c06.cpp', 'optim', be, n=7, args=['part=sched'] + (['threads=2'] if tier == 'quick' else ['threads=2', 'tiny_n=2']), ldflags='-ldl', deadline=(100 if tier == 'quick' else 1500))
+        jobs += J('c06.cpp', 'optim', be, n=9, args=['part=sched'] + (['threads=2'] if tier == 'quick' else ['threads=2', 'tiny_n=2']), ldflags='-ldl', deadline=(100 if tier == 'quick' else 1500))
     # histories run on an unperturbed heap: what an earlier operation left in freed memory must stay visible to the next one
     jobs += J('c06.cpp', 'optim', 'spqlios-fma', n=8, args=['part=hist'], ldflags='-ldl', env={'MALLOC_PERTURB_': '0'})
     # (d) free-running ThreadSanitizer pass: supporting evidence; a TSan report (exit 66) is attributed to the scenario in flight
@@ -349,7 +349,7 @@ PROPS['C06'] = dict(
          'pthread_mutex_lock/unlock (blocking modelled), decomposition and Karatsuba entry, thread exit (thread_local destructors). oracles: every thread output byte-identical to its sequential reference, no deadlock, '
          'no two threads at FFTW planner calls without a common lock. histories: every sequence of <= depth operations over a 14-operation alphabet on a fresh thread, then a probe (3 gates): bytes == reference. '
          'non-trivial = schedule with at least one preemption / non-empty history',
-    bounds={'quick': '2 threads, <= 2 preemptions, 7 scenarios (FFT products, external products with shared key, gates with shared cloud key (n=1), gate vs key generation, Karatsuba products, thread churn with 31 and 63 short-lived threads between two live ones) x 5 back-ends; histories depth 2 (211 sequences), probe = 4 gates with the 128-bit key + NAND, MUX and an FFT external product under a k=2 key, on an unperturbed heap',
+    bounds={'quick': '2 threads, <= 2 preemptions, 9 scenarios (FFT products, external products with shared key, gates with shared cloud key (n=1), gate vs key generation, Karatsuba products, gates / a direct bootstrap / COPY / NOT on SHARED input ciphertexts, Karatsuba products with shared operands, thread churn with 31 and 63 short-lived threads between two live ones) x 5 back-ends; histories depth 2 (211 sequences), probe = 4 gates with the 128-bit key + NAND, MUX and an FFT external product under a k=2 key, on an unperturbed heap',
             'thorough': '+ 3 threads (3 back-ends), tiny key n=2, histories depth 3'},
     assumptions=['preemption happens only at the interposed points (the code has no atomics; no memory-ordering effects below that granularity are modelled)',
                  'data races invisible to the scheduler are the business of the free-running TSan pass (supporting evidence, blind to the assembly kernels)'],
